@@ -151,7 +151,22 @@ func raceStatements(r *Rand, g int, n int) []string {
 				out = append(out, fmt.Sprintf("select key where key ^= '%s' & (value ~= '^[0-9]+$' | value in ('a', 'b'))", pfx))
 			}
 		case 12:
-			if r.Bool() {
+			if r.Chance(1, 3) {
+				// a function name written between back quotes keeps its capitals (the lexer folds bare words only):
+				// every goroutine uses spellings of its own, first seen during the concurrent phase
+				fn := pick(r, []string{"upper", "lower", "strlen", "is_int", "is_float", "str"})
+				b := []byte(fn)
+				for j := range b {
+					if b[j] >= 'a' && b[j] <= 'z' && (g+i+j)%3 != 0 {
+						b[j] -= 32
+					}
+				}
+				out = append(out, fmt.Sprintf("select key, `%s`(value) as f where key ^= '%s'", string(b), pfx))
+			} else if r.Chance(1, 2) {
+				// a FULL scan (nothing pins the key) that still sees the goroutine's own pairs only; in batch mode whole
+				// chunks of accepted pairs travel from the scan to the projection
+				out = append(out, fmt.Sprintf("select key, upper(value) as u, strlen(key) + strlen(value) as n where substr(key, 0, 4) = '%s' & value != 'zz%d'", pfx, i))
+			} else if r.Bool() {
 				// the short form without a select list
 				out = append(out, fmt.Sprintf("where key ^= '%s' & value != 'zz' limit %d", pfx, 1+r.Intn(4)))
 			} else {
